@@ -105,6 +105,7 @@ type Stats struct {
 	InconclWhy   map[string]int
 	Violations   []Violation
 	Witnesses    []Witness
+	Probes       []Witness // solver-completed inputs of paths the executor could not finish
 	SamplePCs    [][]string
 	AssertsTotal int
 	AssertsSym   int
@@ -135,6 +136,7 @@ type Explorer struct {
 	siblings [][]bool
 	loopCnt  map[ssa.Instruction]int
 	parked   int
+	probe    *Witness
 }
 
 func decString(d []bool) string {
@@ -513,6 +515,9 @@ func Explore(cfg *Config) *Stats {
 					st.Covers[c]++
 				}
 				st.Violations = append(st.Violations, ex.viol...)
+				if ex.probe != nil && len(st.Probes) < 12 {
+					st.Probes = append(st.Probes, *ex.probe)
+				}
 				if wit != nil && witnessLeft > 0 {
 					witnessLeft--
 					st.Witnesses = append(st.Witnesses, *wit)
@@ -557,6 +562,7 @@ func Explore(cfg *Config) *Stats {
 // runPath executes one path. It returns whether the harness ran to completion
 // and, if requested and possible, a model-completed witness of the path.
 func (e *Explorer) runPath(prefix []bool, wantWitness bool) (completed bool, wit *Witness) {
+	e.probe = nil
 	e.prefix, e.pos, e.pc, e.nondets, e.observes, e.nsym, e.steps = prefix, 0, nil, nil, nil, 0, 0
 	e.covers, e.viol, e.incl, e.jsonToks, e.hashToks, e.siblings = map[string]bool{}, nil, "", nil, nil, nil
 	e.digests = nil
@@ -629,6 +635,15 @@ func (e *Explorer) runPath(prefix []bool, wantWitness bool) (completed bool, wit
 		call(i, nil, token.NoPos, fn, nil)
 		completed = true
 	}()
+	if e.incl != "" && !strings.HasPrefix(e.incl, "bound-exceeded") {
+		// The executor gave up on this path. Complete the path condition reached so
+		// far to concrete inputs: the natively compiled harness is run on them, so a
+		// change that pushes the code beyond what the executor can encode is still
+		// confronted with the assertions (natively) instead of silently passing.
+		if r, nd, _ := e.modelNondets(); r == "sat" {
+			e.probe = &Witness{Harness: cfg.Fn, Pkg: cfg.Pkg.Pkg.Path(), Nondets: nd, Decisions: decString(e.prefix[:e.pos]), Panic: e.incl}
+		}
+	}
 	if (completed || panicMsg != "") && wantWitness && e.incl == "" && len(e.viol) == 0 {
 		r, nd, obs := e.modelNondets()
 		if r == "sat" {
